@@ -382,7 +382,29 @@ func (m *Machine) doMakeSlice(t *Thread, f *Frame, i *ssa.MakeSlice) {
 	if !ln.IsConst() || !cp.IsConst() {
 		// symbolic size: only byte slices, as abstract slices
 		if b, ok := et.Underlying().(*types.Basic); !ok || b.Kind() != types.Uint8 {
-			panic(unsupported("make of non-byte slice with symbolic size at " + m.pos(i)))
+			// the Go panic for an absurd size is checked first (it is what a peer-controlled count can trigger); a
+			// feasible in-range symbolic size of a non-byte slice is then concretised if it has few values
+			esz := types.SizesFor("gc", "amd64").Sizeof(et)
+			if esz <= 0 {
+				esz = 1
+			}
+			limit := int64(1<<47) / esz
+			bad := smt.Or(smt.Slt(ln, smt.BV(64, 0)), smt.Or(smt.Slt(cp, ln), smt.Not(smt.Slt(cp, smt.BV(64, uint64(limit))))))
+			m.Res.PanicChecks++
+			if m.branch(bad, "makeslice@"+m.pos(i)) {
+				m.goPanic(t, "runtime error: makeslice: len out of range", i)
+				return
+			}
+			m.allocs = append(m.allocs, allocRec{size: cp, where: m.pos(i)})
+			c := m.concretize(cp, 0, 1<<20, "makecap@"+m.pos(i))
+			l := m.concretize(ln, 0, c, "makelen@"+m.pos(i))
+			cells := m.newCells(int(c))
+			for k := 0; k < int(c); k++ {
+				cells.E[k] = m.zero(et)
+			}
+			f.Regs[i] = Slice{C: cells, Off: 0, Len: int(l), Cap: int(c)}
+			f.PC++
+			return
 		}
 		// Go panics when len < 0, len > cap or the size exceeds the address space (maxAlloc 2^48 on amd64)
 		bad := smt.Or(smt.Slt(ln, smt.BV(64, 0)), smt.Or(smt.Slt(cp, ln), smt.Not(smt.Slt(cp, smt.BV(64, 1<<47)))))
